@@ -2,7 +2,7 @@
    PARTIAL: the theorems are about the model (reference semantics L1 and chunk-stream operators L2 of Model.v);
    the repository's operators are tied to it by the black-box correspondence only (props/C08/NOTES.md). *)
 From Coq Require Import ZArith List Bool Permutation Sorted.
-From OG Require Import C08.Model C08.Proofs.
+From OG Require Import C08.Model C08.Proofs C08.Pipe C08.PipeProofs.
 Import ListNotations.
 
 (* Every operator that is a state machine over rows gives the same output and final state for every cut of its
@@ -78,11 +78,66 @@ Theorem C08_plain_pipeline_refines_eval : forall q cols (parts : list (list seri
 Proof. exact plain_pipeline_refines_eval_lemma. Qed.
 Print Assumptions C08_plain_pipeline_refines_eval.
 
-(* L2 = L1, PARTIAL. Proved: (i) the limit stage of the pipeline computes L1's limit_rows for every chunking;
-   (ii) L1's fill over a concatenation of chunks is the fill of the chunks with the previous values carried.
-   Plain selections are complete (C08_plain_pipeline_refines_eval + the limit stage below).
-   Missing for aggregate queries: the aggregation stage (agg_spec over the (group,bucket)-keyed time-ordered scan =
-   L1's per-bucket agg_cell over filtered points), the fill machine = L1's bucket enumeration, and their composition. *)
+(* ---- L2 = L1 for aggregate queries (Pipe.v): the chunked pipeline
+        series cursors -> readers (any partition of the group's series) -> ordered merge -> aggregation with one-chunk
+        look-ahead over ANY cut -> finalise -> fill machine over ANY cut
+   computes the reference semantics. *)
+
+(* aggregation stage: for every partition of the member series over readers (in any order) and every chunking of the
+   merged stream, the finalised partial rows are exactly L1's pre-fill bucket rows: one row per non-empty
+   epoch-aligned bucket, each cell the documented aggregate of the selected points of that bucket *)
+Theorem C08_agg_stage_refines_eval : forall q aggs (parts : list (list series)) ms sizes,
+  (q_interval q =? 0)%Z = false -> Permutation (concat parts) ms ->
+  finalize aggs (l2_partials q aggs parts sizes) = prefill_rows (q_interval q) (agg_cols_of q aggs ms).
+Proof.
+  intros q aggs parts ms sizes E P. rewrite (l2_partials_canon q aggs parts ms sizes P). exact (finalize_canonp q aggs ms E).
+Qed.
+Print Assumptions C08_agg_stage_refines_eval.
+
+(* fill stage: the fill operator (gaps synthesised before a row, the tail at the end of the group, previous values
+   carried) over every chunking of the bucket rows = enumerate every bucket of the range and fill cell-wise *)
+Theorem C08_fill_stage_refines_eval : forall i m aggs sizes (rows : list arow) first last n,
+  (0 < i)%Z -> Sorted key_lt rows ->
+  Forall (fun r : arow => (exists g : nat, fst r = first + i * Z.of_nat g)%Z /\ (fst r <= last)%Z /\
+                          length (snd r) = length aggs) rows ->
+  (last = first + i * Z.of_nat n - i)%Z ->
+  fill_group_chunks i first last m aggs (cut sizes rows) =
+  fill_rows m aggs (null_cells aggs) (enumerate_buckets n first i aggs rows).
+Proof. intros i m aggs sizes rows first last n Hi. exact (fill_stage_lemma i Hi m aggs sizes rows first last n). Qed.
+Print Assumptions C08_fill_stage_refines_eval.
+
+(* one tag group of an ascending aggregate query: pipeline = L1 (count sum mean min max first last; overall or per
+   epoch-aligned bucket; fill none/null/number/previous), for every partition and every two chunkings *)
+Theorem C08_agg_pipeline_refines_eval : forall q aggs ms cur (parts : list (list series)) sizes sizes2,
+  q_desc q = false -> (0 <= q_interval q)%Z -> Permutation (concat parts) ms ->
+  l2_agg_group_asc q aggs parts sizes sizes2 = agg_group cur q aggs ms.
+Proof. exact l2_agg_group_asc_lemma. Qed.
+Print Assumptions C08_agg_pipeline_refines_eval.
+
+(* the whole answer of an ascending query of the core language (plain selections with limit/offset, aggregates per
+   tag group and bucket with fill): for EVERY execution plan - partition of each group's series over readers,
+   chunking before the aggregation, before the fill and before the limit operator - the pipeline's answer is the
+   reference answer. Descending queries: L1 only (C08_desc_is_rev_asc); the descending pipeline is not modelled. *)
+Theorem C08_pipeline_refines_eval : forall db q pl,
+  q_desc q = false -> (0 <= q_interval q)%Z ->
+  (forall k, In k (keys_of q db) -> Permutation (concat (pl_parts pl k)) (members q db k)) ->
+  l2_eval_asc db q pl = eval_query db q.
+Proof. exact (l2_eval_asc_lemma false). Qed.
+Print Assumptions C08_pipeline_refines_eval.
+
+(* hence two plans give the same answer: parallelism and chunk sizes are unobservable *)
+Theorem C08_pipeline_plan_invariant : forall db q pl1 pl2,
+  q_desc q = false -> (0 <= q_interval q)%Z ->
+  (forall k, In k (keys_of q db) -> Permutation (concat (pl_parts pl1 k)) (members q db k)) ->
+  (forall k, In k (keys_of q db) -> Permutation (concat (pl_parts pl2 k)) (members q db k)) ->
+  l2_eval_asc db q pl1 = l2_eval_asc db q pl2.
+Proof.
+  intros db q pl1 pl2 Hd Hi H1 H2.
+  rewrite (l2_eval_asc_lemma false db q pl1 Hd Hi H1), (l2_eval_asc_lemma false db q pl2 Hd Hi H2). reflexivity.
+Qed.
+Print Assumptions C08_pipeline_plan_invariant.
+
+(* the two facts the first version of this file proved in isolation (kept: the limit stage is used above) *)
 Theorem C08_pipeline_refines_eval_partial :
   (forall q sizes rows, (0 <? q_limit q)%Z = true ->
      limit_rows q rows = snd (run_chunks (limit_step (Z.to_nat (q_offset q)) (Z.to_nat (q_limit q))) 0%nat (cut sizes rows)))
@@ -118,3 +173,22 @@ Example C08_example :
   eval_query db q = [([], [(0, [CVal 104]); (5, [CVal 40]); (10, [CVal 40])]%Z)] /\
   eval_query db (set_desc q true) = [([], [(10, [CVal 40]); (5, [CVal 40]); (0, [CVal 104])]%Z)].
 Proof. vm_compute. split; reflexivity. Qed.
+
+(* non-vacuity of the pipeline theorem: a plan with two readers (series split 1 + 2, listed in another order than the
+   data base), chunks of 1, 2, 1.. rows before the aggregation and of 2 rows before the fill *)
+Example C08_pipeline_example :
+  let s1 : series := ([1%Z], [(1, [Some 12]); (2, [Some 20]); (7, [Some 32])]%Z) in
+  let s2 : series := ([2%Z], [(2, [Some 72]); (6, [Some 8])]%Z) in
+  let s3 : series := ([1%Z], [(3, [None]); (12, [Some 5])]%Z) in
+  let db : database := [s1; s2; s3] in
+  let q := mkQ (SelAgg [(FSum, 0%nat, 8%Z); (FLast, 0%nat, 8%Z)]) (Some 0%Z) (Some 24%Z) PTrue [] 5%Z FillPrev 0%Z 0%Z false in
+  let pl := mkPlan (fun _ => [[s3]; [s2; s1]]) (fun _ => [0; 1; 0]%nat) (fun _ => [1]%nat) (fun _ => []) in
+  (forall k, In k (keys_of q db) -> Permutation (concat (pl_parts pl k)) (members q db k)) /\
+  l2_eval_asc db q pl = eval_query db q /\
+  eval_query db q = [([], [(0, [CVal 104; CVal 72]); (5, [CVal 40; CVal 32]); (10, [CVal 5; CVal 5]);
+                           (15, [CVal 5; CVal 5]); (20, [CVal 5; CVal 5])]%Z)].
+Proof.
+  cbv zeta. split; [|split; vm_compute; reflexivity].
+  intros k Hk. vm_compute in Hk. destruct Hk as [<-|[]]. vm_compute.
+  apply Permutation_sym. apply (Permutation_cons_app [_; _] []). cbn [app]. apply perm_swap.
+Qed.
